@@ -22,28 +22,74 @@ def shrink(suite, line, sig):
     toks = line.split()
     qi = toks.index("Q")
     head, qs = toks[:qi], toks[qi + 1:]
-    # one query
+    # one query; else (multi-step witnesses: the same filter over several windows, `w` = wait for the persistent-query
+    # write) drop query-section tokens greedily
     for q in qs:
-        if fails(suite, " ".join(head + ["Q", q]), sig):
+        if q != "w" and fails(suite, " ".join(head + ["Q", q]), sig):
             qs = [q]
             break
+    else:
+        i = 0
+        while i < len(qs) and len(qs) > 1:
+            cand = qs[:i] + qs[i + 1:]
+            if any(t != "w" for t in cand) and fails(suite, " ".join(head + ["Q"] + cand), sig):
+                qs = cand
+            else:
+                i += 1
+    # a second layout (H2 …) that is not needed
+    if "H2" in head:
+        h2 = head.index("H2")
+        if fails(suite, " ".join(head[:h2] + ["Q"] + qs), sig):
+            head = head[:h2]
+    def flushed(part):
+        """the events a history part has flushed (sent before its last fl/ro), as the specification reads it"""
+        batch, pending, out = [], [], []
+        for t in part:
+            if t == "send":
+                pending += batch
+                batch = []
+            elif t in ("fl", "ro"):
+                out += pending
+                pending = []
+            elif t.startswith("ev/"):
+                batch.append(t)
+        return sorted(out)
+
     def ok(h):
+        # two layouts (… H2 …) must keep holding the SAME flushed events, else they differ for a trivial reason
+        if "H2" in h:
+            k = h.index("H2")
+            if flushed(h[:k]) != flushed(h[k + 1:]):
+                # drop the events that only one side still has, once; give up if that does not make them equal
+                a, b = set(flushed(h[:k])), set(flushed(h[k + 1:]))
+                h = [t for i, t in enumerate(h) if not t.startswith("ev/") or (t in a and t in b)]
+                k = h.index("H2")
+                if flushed(h[:k]) != flushed(h[k + 1:]) or not flushed(h[:k]):
+                    return False
+                ok.last = h
+        else:
+            ok.last = h
+        if "H2" in h:
+            ok.last = h
         return fails(suite, " ".join(h + ["Q"] + qs), sig)
+    ok.last = None
     # remove history tokens greedily, in chunks
     hi = head.index("H")
     pre, hist = head[:hi + 1], head[hi + 1:]
+    # (with a second layout the tail H2 … stays in hist and is shrunk token by token like the rest; `rq/…` tokens too)
     n = max(1, len(hist) // 2)
     while n >= 1:
         i = 0
         while i < len(hist):
             cand = hist[:i] + hist[i + n:]
             if cand and ok(pre + cand):
-                hist = cand
+                hist = ok.last[len(pre):]
             else:
                 i += n
         n //= 2
     # drop fields of remaining events
-    for idx, t in enumerate(hist):
+    for idx in range(len(hist)):
+        t = hist[idx]
         if t.startswith("ev/"):
             p = t.split("/", 3)
             fs = p[3].split(",") if p[3] != "-" else []
@@ -51,9 +97,10 @@ def shrink(suite, line, sig):
             while j < len(fs):
                 cand = fs[:j] + fs[j + 1:]
                 t2 = "/".join(p[:3] + [",".join(cand) if cand else "-"])
-                if ok(pre + hist[:idx] + [t2] + hist[idx + 1:]):
+                h2 = [t2 if x == hist[idx] else x for x in hist]
+                if ok(pre + h2):
                     fs = cand
-                    hist[idx] = t2
+                    hist = h2
                 else:
                     j += 1
     return " ".join(pre + hist + ["Q"] + qs)
